@@ -150,6 +150,8 @@ type Worker struct {
 	P      *Program
 	Cfg    *Config
 	Solver *Solver
+
+	lastRecycle int64
 }
 
 func NewWorker(p *Program, cfg *Config) (*Worker, error) {
@@ -389,6 +391,11 @@ type PathResult struct {
 
 // RunOne explores exactly one path of fn(args...) determined by the decision prefix.
 func (w *Worker) RunOne(fn *ssa.Function, args []interface{}, prefix []int64) *PathResult {
+	// a long-lived z3 process slows down as it accumulates popped declarations: recycle it
+	if w.Solver.Stats.Queries-w.lastRecycle > 4000 {
+		w.Solver.Recycle()
+		w.lastRecycle = w.Solver.Stats.Queries
+	}
 	out := &Outcome{Stats: newPathStats()}
 	base := w.Solver.Stats
 	pc := w.runPath(fn, args, prefix, out)
